@@ -12,6 +12,10 @@ def _p(corpora, level='model_checking', rule='', assumptions=None):
 
 
 PROPS = {
+    'C14': _p(lambda t: ['fn14', 'adts'],
+              rule='a case is an input byte string (all strings up to the length bound over {00,01,02,03,FF}, enumerated completely; completeness is itself checked by TLC against the canonical enumeration) or an ADTS header tuple (frame length x protection flag x buffer length x sampling index x channel configuration); non-trivial when it can contain a start code (length >= 3)',
+              assumptions=['exhaustive only up to the length bound and over the 5-byte alphabet, which contains every start-code-relevant byte class (00, 01, other low values, a high value)', 'ADTS payloads are recovered from finished files by the independent reader']),
+
     'C13': _p(lambda t: ['sink'], level='fault_enumeration',
               rule='a case is a (history, fault schedule) pair: every write-call index x {5 error kinds, Ok(0), Interrupted x1/x3, accept 1, accept n-1, fail-once} and every byte offset of the output as a short-write cut, for representative histories of every layout; non-trivial when the schedule contains a non-full response',
               assumptions=['fault schedules are enumerated for representative histories (listed in coverage.samples), not for all histories', 'the design-level model MuxideSink.tla is checked for files of 6 abstract bytes and buffers of <= 4']),
